@@ -41,6 +41,7 @@ def py {β : Type} : Except Err β → Except String β
 
 def asKind (j : Json) : Except String Kind := do
   match ← getStr j "c" with
+  | "Mul" => pure .mul      -- a `_MulExpr` constructed directly (its arguments may then be bare numbers)
   | "Constant" => pure .const | "Symbol" => pure .symbol | "Log10" => pure .log10 | "Exp" => pure .exp
   | "Poly" => pure (.poly (← getStr j "param") (← getBool j "recip") (← getBool j "shift"))
   | "Piecewise" => pure (.piecewise (← getStr j "param"))
